@@ -27,11 +27,15 @@ META = {
                   "Laplacian; a face with exactly one feature edge is constrained to 1 = X^order (branch 0 = the unit vector "
                   "along the edge) for every order and keeps it through optimize; every constrained element (faces or "
                   "vertices) is left at its (normalised) constraint for any solver / smoothing answers; normalisation gives "
-                  "modulus 1 to every element above the 1e-10 guard; the bordered pipeline with n_smooth = 0 returns the "
+                  "modulus 1 to every element above the 1e-10 guard (C18_unit_partial: the guard is per element and depends on the "
+                  "solver's answer - NO condition on the input alone is proved, and none can hold for all meshes: 'unit on "
+                  "every element' fails on symmetric inputs, see the refutation and the known findings; each run tests it "
+                  "element by element); the bordered pipeline with n_smooth = 0 returns the "
                   "element-wise normalisation of the field that extends the constraints and is harmonic at the free elements, "
                   "for EVERY solver answer satisfying L_II z = -L_IB z_B; the vertex angles of flag_singularities telescope to "
                   "the sum of the defects for any edge rotations, so the stored indices (+ the explicit sub-threshold residue) "
-                  "sum to (sum of defects)*2/pi = 4 chi under Gauss-Bonnet; re-flagging on a mesh object that carried earlier "
+                  "sum to (sum of defects)*2/pi, which is 4 chi under the Gauss-Bonnet premise stated in the theorem (C07's result; "
+                  "tested per run on the defects the code uses, not linked by proof); re-flagging on a mesh object that carried earlier "
                   "fields stores exactly the indices of the field asked for (both element kinds; the `.clear()` of both "
                   "flag_singularities is generated); gauge covariance of operator + partition + solve: whatever any solver "
                   "answers in rotated bases, rotated back it is a harmonic extension of the original constraints, and "
@@ -232,14 +236,30 @@ def shrink_case(case, fails_with):
 
 
 def oracle_on(case, res):
+    """-> list of (key, message[, extra])"""
     if not res["ok"]:
-        if "Factor is exactly singular" in res["error"] and "inverse_power_method" in res.get("trace", ""):
-            return [("crash/singular-operator", "the implementation raised %s" % res["error"])]
         return [("crash", "the implementation raised %s" % res["error"])]
+    if "crash" in res["obs"]:
+        try:
+            k, m, extra = ORA.classify_crash(case, res["obs"])
+            return [(k, m, extra)]
+        except Exception as ex:  # noqa
+            return [("crash", "the implementation raised %s (and the crash could not be classified: %r)" % (res["obs"]["crash"]["error"], ex))]
     try:
         return ORA.check(case, res["obs"])
     except Exception as ex:  # noqa - malformed observation
         return [("oracle-crash", "oracle could not evaluate the observation: %r" % ex)]
+
+
+def parallel_term(case, obs, field):
+    f = ["%d%%nat" % case["order"],
+         coq_list([lit3(p) for p in case["V"]]),
+         coq_list(["(%s, %s, %s)" % tuple(zlit(x) for x in t) for t in case["F"]]),
+         coq_list(["(%s, %s)" % (zlit(a), zlit(b)) for a, b in obs["edges"]]),
+         zlist(obs["feat"]),
+         opt(obs.get("D") if case["cotan"] else None, lambda d: coq_list([lit(x) for x in d])),
+         coq_list([lit2(z) for z in field])]
+    return "(mkpcase %s)" % " ".join(f)
 
 
 def run(ctx):
@@ -294,7 +314,7 @@ def run(ctx):
         for k, (c, r) in enumerate(zip(sq, sr["steps"])):
             cases.append(dict(c, _seq={"step": k, "earlier": [{kk: vv for kk, vv in x.items() if kk not in ("V", "F")} for x in sq[:k]]}))
             results.append(r)
-            if k >= 1 and r["ok"]:
+            if k >= 1 and r["ok"] and "crash" not in r["obs"]:
                 later.append(len(cases) - 1)
     fresh = run_cases_impl([{kk: vv for kk, vv in cases[i].items() if kk != "_seq"} for i in later])
     for i, fr in zip(later, fresh):
@@ -308,7 +328,7 @@ def run(ctx):
         if "_meta" in c:
             m = c["_meta"]
             meta.append((i, dict(c, n_smooth=0), dict(c, V=m["V2"], F=m["F2"], n_smooth=0), m["vperm"], m["fperm"]))
-        elif i >= n_fixed_cases and len(meta) < n_meta and r["ok"] and r["obs"]["n_boundary_edges"] > 0:
+        elif i >= n_fixed_cases and len(meta) < n_meta and r["ok"] and "crash" not in r["obs"] and r["obs"]["n_boundary_edges"] > 0:
             V2, F2, vperm, fperm = G.renumber(ctx.rng, c["V"], c["F"])
             cases[i] = c = dict(c, _meta={"V2": V2, "F2": F2, "vperm": vperm, "fperm": fperm})
             meta.append((i, dict(c, n_smooth=0), dict(c, V=V2, F=F2, n_smooth=0), vperm, fperm))
@@ -325,7 +345,7 @@ def run(ctx):
         ctx.count("weights=" + ("cotan" if c["cotan"] else "uniform"))
         ctx.count("mesh=" + c["kind"].rstrip("0123456789x"))
         nontriv = False
-        if r["ok"]:
+        if r["ok"] and "crash" not in r["obs"]:
             o = r["obs"]
             closed = o["n_boundary_edges"] == 0
             ctx.count("closed" if closed else "bordered")
@@ -337,35 +357,43 @@ def run(ctx):
                       sample={"mesh": c["kind"], "elem": c["elem"], "order": c["order"], "features": c["features"],
                               "n_smooth": c["n_smooth"], "faces": len(c["F"])})
 
-    # ---- 1. oracle on every case
+    # ---- 1. oracle on every case: EVERY offending element is classified
     fails = []   # (case index, key, message)
+    crash_cls = []   # (case index, parallel unit field) of crashes filed under the known input class: re-checked in Coq below
     for i, (c, r) in enumerate(zip(cases, results)):
-        for key, msg in oracle_on(c, r):
-            fails.append((i, key, msg))
+        for f in oracle_on(c, r):
+            fails.append((i, f[0], f[1]))
+            if f[0] == "crash/singular-operator" and len(f) > 2 and f[2]:
+                crash_cls.append((i, f[2]["parallel"]))
     # history independence of the flagging
     for i, fr in fresh_of.items():
-        if fr["ok"] and results[i]["ok"]:
+        if fr["ok"] and results[i]["ok"] and "crash" not in fr["obs"] and "crash" not in results[i]["obs"]:
             v = ORA.history_check(cases[i], results[i]["obs"], fr["obs"])
             if v is not None:
                 fails.append((i, v[0], v[1] + " [earlier on this mesh: %s]"
                               % [(x["elem"], x["order"], x["features"], x["n_smooth"]) for x in cases[i]["_seq"]["earlier"]]))
     # metamorphic
-    n_meta_checked = 0
+    n_meta_checked = n_meta_dropped = 0
     for (i, c1, c2, vperm, fperm), r1, r2 in zip(meta, m1, m2):
-        if not (r1["ok"] and r2["ok"]):
-            fails.append((i, "crash", "metamorphic twin raised: %s" % (r1.get("error") or r2.get("error"))))
+        if not (r1["ok"] and r2["ok"]) or "crash" in r1["obs"] or "crash" in r2["obs"]:
+            n_meta_dropped += 1
+            if not any(fi == i for fi, _, _ in fails):
+                fails.append((i, "crash", "metamorphic twin raised: %s" % (r1.get("error") or r2.get("error") or "crash")))
             continue
         n_meta_checked += 1
-        v = ORA.compare_runs(c1, r1["obs"], c2, r2["obs"], vperm, fperm)
-        if v is not None:
-            fails.append((i, v[0], v[1] + " [mesh %s, %s]" % (c1["kind"], c1["elem"])))
+        for key, msg in ORA.compare_runs(c1, r1["obs"], c2, r2["obs"], vperm, fperm):
+            fails.append((i, key, msg + " [mesh %s, %s]" % (c1["kind"], c1["elem"])))
     ctx.count("metamorphic pairs", n_meta_checked)
+    unknown = [(i, k, m) for i, k, m in fails if not ctx.known(k)]
     ctx.obligation("oracle: unit modulus, constraints kept and tangent, Hermitian operator, flat = scalar, harmonic residual, "
-                   "index sum/quantum, renumbering metamorphic test on %d bordered pairs (independent numpy restatement)" % n_meta_checked,
-                   "oracle-on-implementation", True, "%d failing observations" % len(fails))
+                   "index sum/quantum/history, renumbering metamorphic test on %d bordered pairs (independent numpy restatement); "
+                   "every offending element classified" % n_meta_checked,
+                   "oracle-on-implementation", not unknown,
+                   "%d failing observations, %d outside the recorded known-finding classes" % (len(fails), len(unknown)))
 
     # ---- 2. kernel-checked correspondence
-    okidx = [i for i, r in enumerate(results) if r["ok"]]
+    okidx = [i for i, r in enumerate(results) if r["ok"] and "crash" not in r["obs"]]
+    n_dropped = len(results) - len(okidx)
     fidx = [i for i in okidx if cases[i]["elem"] == "faces"]
     vidx = [i for i in okidx if cases[i]["elem"] == "vertices"]
     bad_f = bad_v = []
@@ -376,36 +404,51 @@ def run(ctx):
                 try:
                     terms.append(fn(cases[i], results[i]["obs"]))
                     keep.append(i)
-                except ValueError as ex:
-                    # a non-finite observation cannot enter the kernel batch: the oracle must have condemned it
-                    if not any(fi == i for fi, _, _ in fails):
-                        ctx.obligation("case %d encodable or condemned by the oracle" % i, "correspondence", False, str(ex))
+                except ValueError:
+                    pass   # a non-finite observation cannot enter the kernel batch: counted as dropped below
             return keep, terms
+        nf, nv = len(fidx), len(vidx)
         fidx, fterms = encode(fidx, faces_term)
         vidx, vterms = encode(vidx, vertices_term)
+        n_dropped += (nf - len(fidx)) + (nv - len(vidx))
         bad_f = ctx.run_cases("faces", HEADER, fterms, "check_faces", case_type="fcase", shard=8 if quick else 25, timeout=900)
         bad_v = ctx.run_cases("vertices", HEADER, vterms, "check_vertices", case_type="vcase", shard=8 if quick else 25, timeout=900)
+        # the input class of the known crash is a statement about the MODEL's operator: kernel-checked per case
+        if crash_cls:
+            pterms = [parallel_term(cases[i], results[i]["obs"], fld) for i, fld in crash_cls]
+            bad_p = ctx.run_cases("crashclass", HEADER, pterms, "check_parallel", case_type="pcase", shard=20, timeout=600)
+            for k in (bad_p if bad_p is not None else range(len(crash_cls))):
+                i = crash_cls[k][0]
+                fails = [(fi, ("crash" if (fi == i and fk == "crash/singular-operator") else fk), fm) for fi, fk, fm in fails]
     else:
         ctx.obligation("correspondence batches", "correspondence", False, "model does not compile")
     ctx.log("correspondence batches done: faces bad=%s vertices bad=%s" % (bad_f, bad_v))
     dis = [fidx[k] for k in (bad_f or [])] + [vidx[k] for k in (bad_v or [])]
+    # cases that did not reach the kernel batch (driver error, crash of the implementation, non-finite observation): each
+    # must be condemned by the oracle, and they must stay a small fraction
+    uncondemned = [i for i in range(len(results)) if (i not in set(fidx) | set(vidx)) and not any(fi == i for fi, _, _ in fails)]
+    ctx.count("cases without kernel correspondence (crash / non-finite)", n_dropped)
+    ctx.obligation("cases dropped from the kernel batches: %d of %d, each condemned by the oracle, at most 5%%" % (n_dropped, len(results)),
+                   "harness", (not uncondemned) and n_dropped <= max(3, 0.05 * len(results)) and len(okidx) > 0,
+                   "uncondemned: %s" % uncondemned[:10])
 
-    # ---- 3. verdicts
+    # ---- 3. verdicts: unknown keys first, one report per key
+    fails.sort(key=lambda f: (1 if ctx.known(f[1]) else 0))
     reported = set()
     wit_keys = wit_at
     for i, key, msg in fails:
         if key in reported:
             continue
         reported.add(key)
-        c = {k: v for k, v in cases[i].items() if k != "_meta" or key.startswith("gauge/")}
+        c = {k: v for k, v in cases[i].items() if k != "_meta" or key.startswith("gauge/") or key == "unit/zero-solution-noise"}
         if ctx.known(key):
             ctx.report_known(key, ctx.known(key)["what"])
             continue
 
         def fails_with(cand, key=key):
             r = run_cases_impl([cand])[0]
-            return any(k == key for k, _ in oracle_on(cand, r))
-        small = shrink_case(c, fails_with) if not key.startswith("gauge/") else c
+            return any(f[0] == key for f in oracle_on(cand, r))
+        small = shrink_case(c, fails_with) if not (key.startswith("gauge/") or "_seq" in c) else c
         ctx.violation("%s: %s" % (key, msg), {"case": small, "class": key}, key=key)
     # witnesses of known findings that no longer fail are reported (not an alarm)
     for i, k in wit_keys.items():
@@ -436,7 +479,7 @@ def replay(ctx, data):
         r = run_cases_impl([{"seq": seq}])[0]["steps"][-1]
         fs = oracle_on(case, r)
         fr = run_cases_impl([plain])[0]
-        if r["ok"] and fr["ok"]:
+        if r["ok"] and fr["ok"] and "crash" not in r["obs"] and "crash" not in fr["obs"]:
             v = ORA.history_check(case, r["obs"], fr["obs"])
             if v is not None:
                 fs.append(v)
@@ -444,18 +487,16 @@ def replay(ctx, data):
     else:
         r = run_cases_impl([case])[0]
         fs = oracle_on(case, r)
-    if "_meta" in case and r["ok"]:
+    if "_meta" in case and r["ok"] and "crash" not in r["obs"]:
         m = case["_meta"]
         c1 = dict(case, n_smooth=0)
         c2 = dict(case, V=m["V2"], F=m["F2"], n_smooth=0)
         r1, r2 = run_cases_impl([c1, c2])
         if r1["ok"] and r2["ok"]:
-            v = ORA.compare_runs(c1, r1["obs"], c2, r2["obs"], m["vperm"], m["fperm"])
-            if v is not None:
-                fs.append(v)
+            fs += ORA.compare_runs(c1, r1["obs"], c2, r2["obs"], m["vperm"], m["fperm"])
     want = data.get("class")
     hit = [f for f in fs if want is None or f[0] == want]
-    for k, m in fs:
-        print("oracle:", k, "-", m)
+    for f in fs:
+        print("oracle:", f[0], "-", f[1])
     print("FAILS" if hit else "passes")
     return 1 if hit else 0
